@@ -87,6 +87,15 @@ func beSum(arr, off string, k int) string {
 	return "(+ " + strings.Join(parts, " ") + ")"
 }
 
+// beByte is byte j (0 = most significant) of the k-byte big-endian encoding of val.
+func beByte(val string, k, j int) string {
+	sh := pow2str(int64(8 * (k - 1 - j)))
+	if sh == "1" {
+		return "(mod " + val + " 256)"
+	}
+	return "(mod (div " + val + " " + sh + ") 256)"
+}
+
 // fixedSize of a static type for encoding/binary: (bytes, isInt)
 func binSize(t types.Type) (int, bool) {
 	if t == nil {
@@ -108,35 +117,16 @@ func binSize(t types.Type) (int, bool) {
 	return 0, false
 }
 
-// appendBytes returns contents ++ extra (quantified definition).
+// appendBytes returns contents ++ extra (prelude function catbytes).
 func (x *Exec) appendBytes(contents, extra string) string {
-	bs := x.bytesSort()
-	arr := x.u.fresh("cat", "(Array Int Int)")
-	q := "j$q" + fmt.Sprint(x.nextQ())
-	lc := "(slen_Int " + contents + ")"
-	le := "(slen_Int " + extra + ")"
-	x.u.fact(fmt.Sprintf("(forall ((%s Int)) (! (= (select %s %s) (ite (< %s %s) (select (sarr_Int %s) %s) (select (sarr_Int %s) (- %s %s)))) :pattern ((select %s %s))))",
-		q, arr, q, q, lc, contents, q, extra, q, lc, arr, q))
-	r := x.u.fresh("buf", bs)
-	x.u.fact(fmt.Sprintf("(= %s (mk_%s %s (+ %s %s) false))", r, bs, arr, lc, le))
-	return r
+	x.need("catbytes")
+	return x.bind(Val{T: "(catbytes " + contents + " " + extra + ")", S: x.bytesSort()}, "buf").T
 }
 
-// appendBE returns contents ++ BE_k(val): the k new bytes are in 0..255 and sum to val.
+// appendBE returns contents ++ BE_k(val) (prelude function appendbe).
 func (x *Exec) appendBE(contents string, k int, val string) string {
-	bs := x.bytesSort()
-	arr := x.u.fresh("be", "(Array Int Int)")
-	q := "j$q" + fmt.Sprint(x.nextQ())
-	lc := "(slen_Int " + contents + ")"
-	x.u.fact(fmt.Sprintf("(forall ((%s Int)) (! (=> (< %s %s) (= (select %s %s) (select (sarr_Int %s) %s))) :pattern ((select %s %s))))",
-		q, q, lc, arr, q, contents, q, arr, q))
-	for j := 0; j < k; j++ {
-		x.u.fact(fmt.Sprintf("(and (<= 0 (select %s (+ %s %d))) (<= (select %s (+ %s %d)) 255))", arr, lc, j, arr, lc, j))
-	}
-	x.u.fact(fmt.Sprintf("(=> (and (<= 0 %s) (< %s %s)) (= %s %s))", val, val, pow2str(int64(8*k)), beSum(arr, lc, k), val))
-	r := x.u.fresh("buf", bs)
-	x.u.fact(fmt.Sprintf("(= %s (mk_%s %s (+ %s %d) false))", r, bs, arr, lc, k))
-	return r
+	x.need("appendbe")
+	return x.bind(Val{T: fmt.Sprintf("(appendbe %s %d %s)", contents, k, val), S: x.bytesSort()}, "buf").T
 }
 
 func init() {
@@ -290,6 +280,12 @@ func init() {
 				val = wrapTo(val, tt)
 			}
 			x.u.gfact(st.pc, fmt.Sprintf("(= %s (ite %s %s %s))", nv.T, okc, val, old.T))
+			if _, signed, _ := intBits(tt); !signed {
+				// the same fact byte by byte (base-256 digits are unique)
+				for j := 0; j < k; j++ {
+					x.u.gfact(st.pc, fmt.Sprintf("(=> %s (= (select (sarr_Int %s) (+ %s %d)) %s))", okc, s, i, j, beByte(nv.T, k, j)))
+				}
+			}
 		} else {
 			nn := int64(k)
 			nb := x.u.fresh("rd", old.S)
@@ -364,16 +360,11 @@ func init() {
 			x.heapStore(st, key, w.T, "(ite "+isBuf+" "+nb+" "+hv+")")
 			return []Val{err}
 		}
-		// interface-typed data: dispatch on the box
+		// interface-typed data: size and value come from the box
 		d := fr.expr(st, c.Args[2])
-		var alts []string
-		res := x.u.fresh("bufw", x.bytesSort())
-		for _, k := range []int{1, 2, 4, 8} {
-			nb := x.appendBE(cur, k, "(boxint "+d.T+")")
-			alts = append(alts, fmt.Sprintf("(=> (= (boxsize %s) %d) (= %s %s))", d.T, k, res, nb))
-		}
+		x.need("appendbe")
+		res := fmt.Sprintf("(appendbe %s (boxsize %s) (boxint %s))", cur, d.T, d.T)
 		okc := fmt.Sprintf("(and %s (or (= (boxsize %s) 1) (= (boxsize %s) 2) (= (boxsize %s) 4) (= (boxsize %s) 8)))", isBuf, d.T, d.T, d.T, d.T)
-		x.u.gfact(st.pc, "(and "+strings.Join(alts, " ")+")")
 		x.u.gfact(st.pc, "(=> "+okc+" (= "+err.T+" 0))")
 		hv := x.u.fresh("bufh", x.bytesSort())
 		x.heapStore(st, key, w.T, "(ite "+okc+" "+res+" "+hv+")")
